@@ -149,6 +149,9 @@ def handleRows (j : Json) : Option Json := do
   let Finit : Residual := match initEqs with
     | none => fun _ _ _ _ _ => [0]
     | some l => evalEqs l
+  -- hypotheses of the theorems (Inst.WF, non-empty own stamps): refuse instances outside them
+  if !I.wfb || own.any (fun o => match o with | some w => w.times.isEmpty || w.mode > 2 | none => false) then
+    pure (Json.str "bad-instance") else
   let vals := probes.map (fun arr => gRows F Finit I (fun i => arr.getD i 0))
   let nrows := (vals.head?.map List.length).getD 0
   let b := gBounds F Finit I (fun _ => 0)
